@@ -14,7 +14,7 @@ CORRESPONDENCE = ["Model.FastStream / Model.FastApi (prepareTable reset conditio
 RULE = ("histories of 14..40 operations on ONE context: fast-reset one-shots of size classes {<4KB, 4KB..64KB+11 (16-bit table), >=65547 (32-bit table)}, "
         "LZ4_compress_fast_extState, LZ4_compress_destSize_extState, short streaming sessions after LZ4_resetStream_fast (plain / loadDict / attach), capacities forcing "
         "failures (15-20%), state injection next to 0xFFFF, 1 GB, 2 GB, 2^32; HC: LZ4_compress_HC_extStateHC_fastReset / _extStateHC at levels 2..10, "
-        "LZ4_resetStreamHC_fast (also when dirty) + sessions with loadDictHC / attach_HC / level changes; inputs placed back to back, sharing content, sometimes "
+        "LZ4_resetStreamHC_fast (also when dirty) + sessions with loadDictHC / attach_HC / level changes; abandoned sessions (attach on a cleared table, nothing or an empty input compressed, reset, dictionary-less session with dictionary-like content; run on the code alone and with the model); inputs placed back to back, sharing content, sometimes "
         "overwriting earlier inputs; non-trivial = an emitted block containing a match; distinct = distinct (source, block)")
 TRUSTED = ["hand-written models Model/FastStream.v + Model/FastApi.v, tied by exact state comparison after every operation of every history",
            "HC context reuse (dirty flag, resetStreamHC_fast, init_internal) is not modelled in Coq: direct oracle only, plus the observable checks "
@@ -36,6 +36,15 @@ def gen_cases(tier, seed):
                       "p": {"nops": rng.choice([14, 25, 40]) if not big else 14, "pbig": 0.3 if big else 0.04, "pmid": 0.3 if big else 0.25,
                             "arena_in": 500000 if big else 300000},
                       "arena": (500000 if big else 300000) + 3 * sl.K64 + 8192, "mirror": False, "ring": i % 2 == 0})
+    # attach, compress nothing (or an empty input) on a cleared table, reset, dictionary-less session with dictionary-like content:
+    # first on the real code alone (the property oracle decides), then with the model
+    k = {"quick": 3, "search": 12, "thorough": 12}[tier]
+    ab = []
+    for i in range(k):
+        ab.append({"bseed": rng.randrange(1 << 48), "kind": "attach_abandoned_f", "fam": "f", "arena": 1 << 17, "model": False})
+    for i in range(k):
+        ab.append({"bseed": rng.randrange(1 << 48), "kind": "attach_abandoned_" + ("f" if i % 3 else "h"), "fam": "f" if i % 3 else "h", "arena": 1 << 17})
+    cases = cases[:2] + ab + cases[2:]
     if tier == "search":
         # failing-input search: the real code alone, judged by the property oracles (a model mismatch would stop a script early)
         for c in cases:
@@ -45,6 +54,8 @@ def gen_cases(tier, seed):
 worker_init = sl.worker_init
 
 def run_case(st, case):
+    if case["kind"].startswith("attach_abandoned"):
+        return sl.run_scenario(st, case, lambda S, rng: sl.scen_attach_abandoned(S, rng, case["fam"], {}))
     if case["kind"] == "corpus_u16_cleared":
         return sl.run_scenario(st, case, lambda S, rng: sl.corpus_u16_cleared(S, rng))
     def fn(S, rng):
